@@ -30,6 +30,7 @@ pub struct TickCtx {
     pub wake: Cell<u64>,
     pub target_site: Cell<usize>,
     pub pending_shared: Cell<bool>,
+    pub pending_after: Cell<bool>,
     pub track_mem: Cell<bool>,
     pub stack_lo: Cell<usize>,
     pub stack_hi: Cell<usize>,
@@ -52,6 +53,7 @@ thread_local! {
         wake: Cell::new(u64::MAX),
         target_site: Cell::new(usize::MAX),
         pending_shared: Cell::new(false),
+        pending_after: Cell::new(false),
         track_mem: Cell::new(false),
         stack_lo: Cell::new(0),
         stack_hi: Cell::new(0),
@@ -78,7 +80,9 @@ pub const EXITED: usize = SITE_COUNT + 1;
 pub const BBLOCK: usize = SITE_COUNT + 2;
 pub const SHARED: usize = SITE_COUNT + 3;
 pub const BLOCKED: usize = SITE_COUNT + 4;
-pub const NSITES: usize = SITE_COUNT + 5;
+pub const MEMACC: usize = SITE_COUNT + 5;
+pub const AFTER_SHARED: usize = SITE_COUNT + 6;
+pub const NSITES: usize = SITE_COUNT + 7;
 
 #[inline(always)]
 fn fold(h: u64, x: u64) -> u64 {
@@ -156,6 +160,8 @@ static mut TABLE: [Slot; TABLE_SIZE] = [Slot { key: 0, writer: 0, readers: 0 }; 
 
 #[inline(always)]
 fn on_mem(addr: usize, store: bool) {
+    // (1) in race-directed runs: is this an access to a word another caller thread touched? If so the tick
+    //     counted below is a decision point labelled `before_shared_access` (the access has not executed yet).
     let _ = T.try_with(|c| {
         if !c.track_mem.get() || !c.in_call.get() || c.in_hook.get() {
             return;
@@ -195,12 +201,14 @@ fn on_mem(addr: usize, store: bool) {
             }
         }
         if shared {
-            c.pending_shared.set(true);
             c.shared_hits.set(c.shared_hits.get() + 1);
-            // enter the scheduler at the next tick
+            c.pending_shared.set(true);
             c.wake.set(0);
         }
     });
+    // (2) every load / store of the library crates is a tick: two accesses inside one basic block can be
+    //     separated by a context switch (instruction granularity with respect to memory)
+    on_tick(if store { 0x2001 } else { 0x2000 }, MEMACC);
 }
 
 /// A block handed out by the allocator starts a new life: whatever thread touched those addresses before is
@@ -301,6 +309,7 @@ pub fn begin_call(c: &TickCtx, call_no: u32) {
     c.synced.set(0);
     c.trace.set(0xcbf2_9ce4_8422_2325);
     c.pending_shared.set(false);
+    c.pending_after.set(false);
 }
 
 // ---------------------------------------------------------------------------
